@@ -25,7 +25,7 @@ import (
 )
 
 type Edit struct {
-	Kind   string `json:"kind"`             // add_field add_union_member add_enum_member add_struct add_enum
+	Kind   string `json:"kind"`             // add_field add_default_field_contained add_union_member add_enum_member add_struct add_enum
 	Target string `json:"target"`           // qualified name of the edited definition
 	Detail string `json:"detail,omitempty"` // field text / member
 }
@@ -55,6 +55,7 @@ type evo struct {
 	p       *schemagen.Program
 	pp      Params
 	counter int
+	dcount  int
 	edits   []Edit
 	// struct-likes added by this evolution (qualified name -> true); they may be referenced
 	// without restriction because nothing refers back from them
@@ -84,7 +85,128 @@ func Evolve(r *rng.R, old *schemagen.Program, pp Params) (*schemagen.Program, []
 	if len(e.edits) == 0 {
 		e.addField(false)
 	}
+	// bias: fields WITH A DECLARED DEFAULT added to struct-likes that occur as map value / list element /
+	// set element / map key / nested field — where a reader that forgets InitDefault() for container
+	// elements shows (new code reading old data must give the added field its default there too)
+	for i, k := 0, r.Range(2, 4); i < k; i++ {
+		e.addDefaultFieldContained()
+	}
 	return e.p, e.edits
+}
+
+// positions lists, per struct-like, where values of it occur inside other definitions.
+func (e *evo) positions() map[string][]string {
+	out := map[string][]string{}
+	add := func(name, pos string) {
+		for _, x := range out[name] {
+			if x == pos {
+				return
+			}
+		}
+		out[name] = append(out[name], pos)
+	}
+	var walk func(t *schemagen.Type, pos string)
+	walk = func(t *schemagen.Type, pos string) {
+		switch t.Kind {
+		case "struct":
+			add(t.Name, pos)
+		case "list":
+			walk(t.Elem, "list_elem")
+		case "set":
+			walk(t.Elem, "set_elem")
+		case "map":
+			walk(t.Key, "map_key")
+			walk(t.Elem, "map_value")
+		}
+	}
+	for _, s := range e.p.Structs() {
+		for _, f := range s.Fields {
+			walk(f.Type, "field")
+		}
+	}
+	return out
+}
+
+var defaultKinds = []string{"bool", "byte", "i16", "i32", "i64", "double", "string", "binary", "enum"}
+
+// addDefaultFieldContained adds `N: [optional] T name = literal` to a struct / exception that occurs
+// inside containers or as a nested field, preferring map values.
+func (e *evo) addDefaultFieldContained() {
+	r := e.r
+	pos := e.positions()
+	var cands, mapVals []*schemagen.Struct
+	for _, s := range e.p.Structs() {
+		if s.Kind == "union" || e.added[s.QName()] || len(pos[s.QName()]) == 0 {
+			continue
+		}
+		cands = append(cands, s)
+		for _, p := range pos[s.QName()] {
+			if p == "map_value" {
+				mapVals = append(mapVals, s)
+			}
+		}
+	}
+	if len(cands) == 0 {
+		return
+	}
+	s := rng.Pick(r, cands)
+	if len(mapVals) > 0 && r.Chance(2, 3) {
+		s = rng.Pick(r, mapVals)
+	}
+	f := e.file(s.File)
+	e.dcount++
+	kind := defaultKinds[(e.dcount+r.Intn(3))%len(defaultKinds)]
+	t := &schemagen.Type{Kind: kind}
+	if kind == "enum" {
+		es := e.visEnums(f)
+		if len(es) == 0 {
+			t = &schemagen.Type{Kind: "i32"}
+		} else {
+			t = &schemagen.Type{Kind: "enum", Name: rng.Pick(r, es).QName()}
+		}
+	}
+	lit := e.genLit(t)
+	if lit == nil {
+		t = &schemagen.Type{Kind: "i32"}
+		lit = e.genLit(t)
+	}
+	// a default that differs from the Go zero value shows a forgotten InitDefault()
+	switch lit.Kind {
+	case "bool":
+		lit.Bool = true
+	case "int":
+		if lit.Int == 0 && lit.Enum == "" {
+			lit.Int = 1
+		}
+	case "double":
+		if lit.Bits == 0 {
+			lit.Bits = math.Float64bits(1.5)
+		}
+	case "string", "binary":
+		if lit.Str == "" {
+			lit.Str = "pc"
+		}
+	}
+	fl := &schemagen.Field{ID: e.freshID(s), Name: fmt.Sprintf("dflt_%d", len(s.Fields)+1), Type: t, Default: lit}
+	for _, g := range s.Fields {
+		if g.Name == fl.Name {
+			fl.Name = e.fresh(fl.Name + "_")
+		}
+	}
+	if r.Bool() {
+		fl.Req, fl.ReqText = "optional", "optional"
+	} else {
+		fl.Req = "default"
+	}
+	for _, g := range s.Fields {
+		g.Implicit = false
+	}
+	p := r.Intn(len(s.Fields) + 1)
+	s.Fields = append(s.Fields, nil)
+	copy(s.Fields[p+1:], s.Fields[p:])
+	s.Fields[p] = fl
+	e.edits = append(e.edits, Edit{Kind: "add_default_field_contained", Target: s.QName(),
+		Detail: fmt.Sprintf("%d: %s %s %s (occurs as %s)", fl.ID, fl.Req, typeText(fl.Type), fl.Name, strings.Join(pos[s.QName()], ","))})
 }
 
 func (e *evo) fresh(prefix string) string {
